@@ -36,6 +36,8 @@ func readState(path string) ([]byte, bool) {
 	return b, true
 }
 
+var seenKeygen = map[string]bool{}
+
 func checkC15(c *Ctx) {
 	c.rule = "the real age and age-keygen binaries (rebuilt from the working tree) in scratch directories: decrypt x {valid file of 0 / 1 / 100 / cs+1 plaintext bytes, armored, header bit flipped, wrong identity, payload flipped in the first / second chunk, truncated mid-chunk / right after the nonce / inside the nonce / exactly at a chunk boundary} x output {-o fresh file, -o existing file, -o in a missing directory, -o under a regular file, -o with RLIMIT_FSIZE = n for every n up to the size of small outputs and around chunk boundaries, stdout to a pipe, stdout = /dev/full}; encrypt x the same outputs; output naming the input / identity file / recipients file as x, ./x, d/../x, $PWD/x, .//x; age-keygen with existing / fresh -o, stdout, /dev/full, -y, umask 0/022/077; ALL combinations of the flags -d -e -p -a and zero/one/two of -r -R -i, zero/one -j, zero/one/two positional arguments (input from a file or a pipe): exit status and the state of the -o path vs the model (CliFlags.validate, then the delivery rule); combinations that may prompt run on a pty (quick tier: a quarter of them). passphrase-protected identity files (right / wrong passphrase, a file for another key, encrypting to one) on a pty. Compared with the model (Cli.v fed with the library outcome): exit status = 0?, state of the -o path (absent / unchanged / content), file mode. distinct_nontrivial = distinct (operation, input, output) cases."
 	dir, _ := os.MkdirTemp("", "verif-c15-")
@@ -302,6 +304,24 @@ func checkC15(c *Ctx) {
 		model := parseAll(c.model.Call("cli_keygen", ":absent", lst(":true", ":none", ":true"), hx(got)))[0]
 		c.Compare("age-keygen -o (fresh)~Cli.keygen_cli", map[string]string{"umask": umask}, lst(sbool(res == 0), num(int(st.Mode().Perm()))), lst(model.list[0].String(), model.list[2].String()))
 		c.Oracle("key-file-is-owner-only", err == nil && st.Mode().Perm() == 0o600 && bytes.Count(got, []byte("\n")) == 3 && bytes.Contains(got, []byte("AGE-SECRET-KEY-1")), "keygen-mode", map[string]string{"umask": umask}, fmt.Sprintf("mode %v", st.Mode()))
+		// the file is a usable identity file: exactly one key, the commented public key is ITS recipient, and it is a
+		// new key every time
+		ids, perr := age.ParseIdentities(bytes.NewReader(got))
+		pubLine := ""
+		for _, l := range strings.Split(string(got), "\n") {
+			if strings.HasPrefix(l, "# public key: ") {
+				pubLine = strings.TrimPrefix(l, "# public key: ")
+			}
+		}
+		okKey := perr == nil && len(ids) == 1
+		if okKey {
+			xi, isX := ids[0].(*age.X25519Identity)
+			okKey = isX && xi.Recipient().String() == pubLine && !seenKeygen[xi.String()]
+			if isX {
+				seenKeygen[xi.String()] = true
+			}
+		}
+		c.Oracle("generated-key-file-is-one-fresh-identity", okKey, "keygen-content", map[string]string{"umask": umask}, fmt.Sprintf("age-keygen -o wrote a file that is not exactly one new identity with its own public key in the comment (parse error: %v)", perr))
 		// existing file: never overwritten
 		res2 := runCLI("age-keygen", []string{"-o", "k.txt"}, cliOpts{dir: dir, fsize: -1})
 		after, _ := os.ReadFile(filepath.Join(dir, "k.txt"))
